@@ -110,9 +110,25 @@ func sameCall(a, b Edge) bool {
 // index of the edge the real system followed (ei itself, an alternative, or -1 when none agrees).
 func execEdgeAlt(sys *Sys, g *Graph, e Edge, ei int, probe bool, httpMode bool) (bad []string, out Outcome, took int) {
 	if e.Req != nil {
-		bad, out = execHTTP(sys, g, e, probe, httpRand)
+		o := observeHTTP(sys, g, e, probe, httpRand)
+		bad, out = judgeHTTP(sys, g, e, o)
 		if len(bad) == 0 {
 			return bad, out, ei
+		}
+		if ei >= 0 {
+			// the same request out of the same state with another outcome the specification allows
+			want, _ := json.Marshal(e.Req)
+			for _, xi := range g.out[e.F] {
+				x := g.Edges[xi]
+				if xi == ei || x.Req == nil {
+					continue
+				}
+				if got, _ := json.Marshal(x.Req); string(got) == string(want) {
+					if b2, out2 := judgeHTTP(sys, g, x, o); len(b2) == 0 {
+						return nil, out2, xi
+					}
+				}
+			}
 		}
 		return bad, out, -1
 	}
